@@ -93,6 +93,12 @@ func init() {
 	addRules("C20", "R-CONSTINDEX", "R-SLICE-LOW")
 	addRules("C05", "R-SLICE-LOW", "R-NEGATE")
 	addRules("C20", "R-NEGATE")
+	// round 5
+	reg("R-NILNODE", "In the main package a node handed out by a data-structure package that may be absent (the tail / first link of an empty skiplist, a failed dictionary lookup, an explicit nil, also through wrappers that return it with a nil error) is dereferenced - field read, or passed to a method that reads it - only behind a != nil test.", ruleNilNode)
+	addRules("C20", "R-NILNODE")
+	addRules("C07", "R-NILNODE")
+	reg("R-MEMBER-NEG", "The membership predicates of ds/set (methods of *Set whose first result is a bool) return false only on a path on which one of their map lookups missed or the looked-up map is empty.", ruleMemberNeg)
+	addRules("C06", "R-MEMBER-NEG")
 	addRules("C16", "R-MERGE-PRESERVE")
 	addRules("C08", "R-HINTKEY", "R-INSERT-TOTAL")
 	addRules("C09", "R-INSERT-TOTAL")
